@@ -49,6 +49,10 @@ def formulas(F, R):
         mono(S + 'max_clients', S + 'max_active_requests_per_client', S + 'max_borrowed_responses_per_pending_response'): 2,
         mono(S + 'max_clients', S + 'max_active_requests_per_client', 'max_loaned_responses_per_request'): 2,
     }, 'clients*2*active_requests*(buffer+borrow+loans)')
+    segment_size(F, R)
+
+
+def segment_size(F, R):
     # static segment size >= size*n + align - 1  (checked as size*n + align >= ... + 1 in N-polynomials: the term is size*n + (align - 1))
     cs = F.find_fns(r'^iceoryx2::port::details::data_segment::DataSegment::<.*>::create_static_segment$')
     if len(cs) != 1:
@@ -73,7 +77,6 @@ def formulas(F, R):
                 except NotPoly:
                     ok = False
             R.ob('POLY', key, ok, 'segment size = %s ; required >= size*number_of_chunks + align - 1 (worst-case start alignment)' % s_, sz[0].where, f)
-
 
 def formula_source(f, operand):
     """Alternatives of the chunk count: through the documented preallocate-override hook and through match phis."""
